@@ -19,7 +19,7 @@ __CPROVER_assigns(g_err_n, g_err_code)
 //@assume A5: DoError(code) throws Clipper2Exception in exception builds (modelled: does not return) and returns without effect otherwise (modelled: logs the code).
 
 #define IN_RANGE(p) ((p) >= -8 && (p) <= 8)
-//@extract file=CPP/Clipper2Lib/include/clipper2/clipper.core.h func=CheckPrecisionRange sig="int& error_code" byptr=precision,error_code must=R5
+//@extract file=CPP/Clipper2Lib/include/clipper2/clipper.core.h func=CheckPrecisionRange sig="int& error_code" byptr=precision,error_code must=R5 ifndef=UNIT_SCALEPATHS
 __CPROVER_requires(__CPROVER_is_fresh(precision, sizeof(int)) && __CPROVER_is_fresh(error_code, sizeof(int)) && g_err_n == 0)
 /* in range: nothing changes, nothing reported */
 __CPROVER_ensures(IN_RANGE(__CPROVER_old(*precision)) ==> (*precision == __CPROVER_old(*precision) && *error_code == __CPROVER_old(*error_code) && g_err_n == 0))
@@ -34,6 +34,51 @@ __CPROVER_ensures(!IN_RANGE(__CPROVER_old(*precision)) ==> ((*error_code & 1) !=
 __CPROVER_assigns(*precision, *error_code, g_err_n, g_err_code)
 //@end
 
+#ifndef UNIT_SCALEPATHS
 void h_CPR(void) { int *p, *e; CheckPrecisionRange(p, e); VF_CANARY(); }
+#endif
 //@run name=CheckPrecisionRange.noexc entry=h_CPR enforce=CheckPrecisionRange replace=DoError flags=SAFETY timeout=60
 //@run name=CheckPrecisionRange.exc entry=h_CPR enforce=CheckPrecisionRange replace=DoError defs=EXC flags=SAFETY timeout=60
+
+/* ---- ScalePaths<int64_t, double>: range check ---- */
+#ifdef UNIT_SCALEPATHS
+#undef IN_RANGE
+//@include calltrace.inc
+//@include calltrace_stubs.inc
+//@const file=CPP/Clipper2Lib/include/clipper2/clipper.core.h name=MAX_COORD,MIN_COORD,max_coord,min_coord
+typedef struct { double left, top, right, bottom; } RectDV;
+RectDV g_r;   /* ghost: the bounds GetBounds reports */
+RectDV GetBounds(VTok paths)
+__CPROVER_requires(1)
+__CPROVER_ensures(__CPROVER_return_value.left == g_r.left && __CPROVER_return_value.top == g_r.top && __CPROVER_return_value.right == g_r.right && __CPROVER_return_value.bottom == g_r.bottom)
+__CPROVER_assigns();
+bool g_scaled_each;
+VTok vf_scale_each(VTok paths, double sx, double sy, int* error_code)
+__CPROVER_requires(1) __CPROVER_ensures(g_scaled_each == true && __CPROVER_return_value.tok == 4242) __CPROVER_assigns(g_scaled_each, *error_code);
+#define ASG_LOG __CPROVER_object_whole(g_cnt), __CPROVER_object_whole(g_ev), g_n
+#define HASMUL(a, b) ((IS_FMUL(0, a, b)) || (IS_FMUL(1, a, b)) || (IS_FMUL(2, a, b)) || (IS_FMUL(3, a, b)))
+#define MULRET(a, b) (IS_FMUL(0, a, b) ? FMUL_RET(0) : IS_FMUL(1, a, b) ? FMUL_RET(1) : IS_FMUL(2, a, b) ? FMUL_RET(2) : FMUL_RET(3))
+//@extract file=CPP/Clipper2Lib/include/clipper2/clipper.core.h func=ScalePaths sig="double scale_x, double scale_y" byval=paths byptr=error_code ifdef=UNIT_SCALEPATHS as=ScalePaths_impl
+//@presub /if constexpr \(std::is_integral_v<T1>\)/if (1)/
+//@presub /RectD r = GetBounds<double, T2>\(paths\);/RectDV r = GetBounds(paths);/
+//@presub /result\.reserve\(paths\.size\(\)\);\s*std::transform\(paths\.begin\(\), paths\.end\(\), back_inserter\(result\),\s*\[=, &error_code\]\(const auto& path\)\s*\{ return ScalePath<T1, T2>\(path, scale_x, scale_y, error_code\); \}\);/result = vf_scale_each(paths, scale_x, scale_y, &error_code);/
+//@presub /Paths<T1> result;/VTok result = {0, 0};/
+//@presub /Paths<T1> ScalePaths_impl\(const Paths<T2>\s*& paths/VTok ScalePaths_impl(const VTok& paths/
+//@pysub floatops
+__CPROVER_requires(NOCALLS && __CPROVER_is_fresh(error_code, sizeof(int)) && g_err_n == 0 && !g_scaled_each)
+__CPROVER_requires(g_r.left <= g_r.right && g_r.top <= g_r.bottom && !__CPROVER_isnand(scale_x) && !__CPROVER_isnand(scale_y))
+/* each bound is compared after multiplication by the scale of its own axis */
+__CPROVER_ensures(C_(FN_FMUL) >= 1 && C_(FN_FMUL) <= 4)
+#define OUT_OF_RANGE ( (HASMUL(g_r.left, scale_x) && MULRET(g_r.left, scale_x) < min_coord) || (HASMUL(g_r.right, scale_x) && MULRET(g_r.right, scale_x) > max_coord) || \
+                       (HASMUL(g_r.top, scale_y) && MULRET(g_r.top, scale_y) < min_coord) || (HASMUL(g_r.bottom, scale_y) && MULRET(g_r.bottom, scale_y) > max_coord) )
+/* out of range: reported (bit, DoError(range_error_i)) and the result is empty; nothing is scaled */
+__CPROVER_ensures(OUT_OF_RANGE ==> ((*error_code & 64) != 0 && g_err_n == 1 && g_err_code == 64 && __CPROVER_return_value.tok == 0 && __CPROVER_return_value.size == 0 && !g_scaled_each))
+/* in range: all four products were formed and checked, every path is scaled */
+__CPROVER_ensures(!OUT_OF_RANGE ==> (C_(FN_FMUL) == 4 && HASMUL(g_r.left, scale_x) && HASMUL(g_r.right, scale_x) && HASMUL(g_r.top, scale_y) && HASMUL(g_r.bottom, scale_y) &&
+   g_scaled_each && g_err_n == 0 && __CPROVER_return_value.tok == 4242))
+__CPROVER_assigns(ASG_LOG, *error_code, g_err_n, g_err_code, g_scaled_each)
+//@end
+void h_SP(void) { VTok p; double sx, sy; int* e; LOG_INIT(); ScalePaths_impl(p, sx, sy, e); VF_CANARY(); }
+#endif
+//@run name=ScalePaths.rangecheck entry=h_SP enforce=ScalePaths_impl replace=DoError,GetBounds,vf_scale_each,vf_fmul defs=UNIT_SCALEPATHS flags="--bounds-check --pointer-check" timeout=120
+//@assume R18: in ScalePaths the per-path std::transform(..., ScalePath) is cut out and replaced by one stub call; GetBounds<double> is a stub returning ghost bounds; the four bound*scale products are logged, not evaluated (R21).
